@@ -1,0 +1,48 @@
+//go:build verif
+// +build verif
+
+// Contracts for package websocket, read only by the verifier in /verif (build tag verif).
+// This file contains no code.
+
+package websocket
+
+// Unmasking (RFC 6455 5.3): byte i is xored with key[i mod 4].
+//@ func maskBytes props C20
+//@   ensures forall(i, 0, len(b), b[i] == old(b[i]) ^ key[i & 3])
+//@   loop 1 invariant -1 <= rangeindex && rangeindex < len(b) && pos == rangeindex + 1
+//@   loop 1 invariant forall(i, 0, rangeindex + 1, b[i] == old(b[i]) ^ key[i & 3])
+//@   loop 1 invariant forall(i, rangeindex + 1, len(b), b[i] == old(b[i]))
+//@   modifies elems(b)
+
+// SendData hands exactly one frame to the connection: FIN + text opcode, unmasked, the length
+// encoded in the class the RFC prescribes for it (7 bits up to 125, 126 + 16 bits up to 65535,
+// 127 + 64 bits above), followed by exactly the bytes of data.
+//@ func (*Conn).SendData props C20
+//@   requires c != nil && c.conn != nil && len(data) <= 1 << 39
+//@   at_call Write requires len(buf) >= 2 && buf[0] == 0x81
+//@   at_call Write requires implies(len(data) <= 125, int(buf[1]) == len(data) && len(buf) == 2 + len(data) && forall(i, 0, len(data), buf[2 + i] == data[i]))
+//@   at_call Write requires implies(len(data) > 125 && len(data) < 65536, buf[1] == 126 && int(be16(buf, 2)) == len(data) && len(buf) == 4 + len(data) && forall(i, 0, len(data), buf[4 + i] == data[i]))
+//@   at_call Write requires implies(len(data) >= 65536, buf[1] == 127 && be64(buf, 2) == uint64(len(data)) && len(buf) == 10 + len(data) && forall(i, 0, len(data), buf[10 + i] == data[i]))
+//@   modifies c.writeBuf
+
+// ReadData decodes one frame from the incoming byte sequence wsin at position p = wspos: for a
+// final text frame it returns exactly the payload bytes - as many as the length class says,
+// taken after the header (and the 4-byte mask key if the mask bit is set), unmasked with that
+// key - and advances the read position to the end of the frame.
+//@ define wsb(k) = ghostat(wsin, old(ghost(wspos)) + k)
+//@ define wsLenClass() = wsb(1) & 0x7f
+//@ define wsMasked() = wsb(1) & 0x80 != 0
+//@ define wsHdr() = 2 + ite(wsLenClass() == 126, 2, ite(wsLenClass() == 127, 8, 0))
+//@ define wsLen() = ite(wsLenClass() == 126, wsb(2) * 256 + wsb(3), ite(wsLenClass() == 127, ((((((wsb(2) * 256 + wsb(3)) * 256 + wsb(4)) * 256 + wsb(5)) * 256 + wsb(6)) * 256 + wsb(7)) * 256 + wsb(8)) * 256 + wsb(9), wsLenClass()))
+//@ func (*Conn).ReadData props C20
+//@   requires c != nil && c.conn != nil
+//@   requires forall(k, 0, 1 << 62, 0 <= ghostat(wsin, k) && ghostat(wsin, k) <= 255)
+//@   requires implies(ghostat(wsin, ghost(wspos) + 1) & 0x7f == 127, ghostat(wsin, ghost(wspos) + 2) == 0 && ghostat(wsin, ghost(wspos) + 3) == 0 && ghostat(wsin, ghost(wspos) + 4) == 0)
+//@   ensures implies(err == nil, wsb(0) & 0x80 != 0 && wsb(0) & 0xf == TextMessage)
+//@   ensures implies(err == nil && wsLenClass() < 126, len(data) == wsLen())
+//@   ensures implies(err == nil && wsLenClass() == 126, len(data) == wsLen())
+//@   ensures implies(err == nil && wsLenClass() == 127, len(data) == wsLen())
+//@   ensures implies(err == nil, ghost(wspos) == old(ghost(wspos)) + wsHdr() + ite(wsMasked(), 4, 0) + wsLen())
+//@   ensures implies(err == nil && !wsMasked(), forall(i, 0, len(data), int(data[i]) == wsb(wsHdr() + i)))
+//@   ensures implies(err == nil && wsMasked(), forall(i, 0, len(data), int(data[i]) == wsb(wsHdr() + 4 + i) ^ wsb(wsHdr() + (i & 3))))
+//@   modifies c.maskKey, ghost(wspos)
